@@ -298,7 +298,10 @@ class Super:
                     leaf.callee = g
                     leaf.cond = cond
                     self._edge(cur, leaf.id)
-                    self._edge(leaf.id, nxt)
+                    done = self._new('ret', cn, func, fc.frame)
+                    done.call, done.callee = call, g
+                    self._edge(leaf.id, done.id)
+                    self._edge(done.id, nxt)
                     for c in self.fault.leaf_raises(g, call):
                         self._raise_from(leaf.id, c, cn.frames, fc)
             cur = nxt
